@@ -166,3 +166,75 @@ def replay_table_ownership(inputs, obl):
     if problems:
         return dict(confirmed=True, detail=problems[0])
     return dict(confirmed=False, detail='a reader changing the table it fetched never reached the store')
+
+
+def replay_evict_during_pending_write(inputs, obl):
+    """history on one cache (limit = two entries): f1=OLD and f0 cached | update(f1, NEW) whose write task is held before it touches the
+    disk | update(f2, <limit-sized>) has to evict while that write is pending | get(f1) overlaps the pending write | the write is let go.
+    Afterwards get(f1) must return NEW, the accounting must equal the entries held and stay within the limit."""
+    import os, shutil, tempfile, threading
+    from klongpy.db.file_cache import FileCache
+    d = tempfile.mkdtemp(prefix='pyvc_evict_')
+    try:
+        OLD, FILL, NEW, BIG = b'old-value', b'filler-00', b'new-value', b'x' * 18
+        c = FileCache(max_memory=18, root_path=d)
+        gate, entered, held = threading.Event(), threading.Event(), []
+        real_write = c._write_file
+
+        def gated(file_name, contents, use_fsync):
+            if held and file_name == held[0]:
+                entered.set()
+                gate.wait(20)
+            return real_write(file_name, contents, use_fsync)
+        c._write_file = gated
+        c.update_file('f1', OLD)
+        c.update_file('f0', FILL)
+        c.get_file('f1'); c.get_file('f0')
+        held.append('f1')
+        errs, seen = [], []
+
+        def run(fn):
+            def w():
+                try:
+                    fn()
+                except BaseException as e:
+                    errs.append(repr(e))
+            t = threading.Thread(target=w, daemon=True)
+            t.start()
+            return t
+        ta = run(lambda: c.update_file('f1', NEW))
+        if not entered.wait(20):
+            return dict(confirmed=False, detail='the write task never started')
+        c.update_file('f2', BIG)
+        tg = run(lambda: seen.append(c.get_file('f1')))
+        tg.join(1.0)
+        gate.set()
+        ta.join(20); tg.join(20)
+        problems = []
+        if ta.is_alive() or tg.is_alive():
+            problems.append('a call never returned')
+        elif errs:
+            problems.append(f"a call raised {errs}")
+        else:
+            got = c.get_file('f1')
+            if got != NEW:
+                problems.append(f"get(f1) returned {got!r} after update(f1, {NEW!r}) had completed")
+            with c.file_futures_lock:
+                tot = sum(i[1] for i in c.file_futures.values() if not i[0])
+                cur = c.current_memory_usage
+                wrong = [(fn, i[1], len(i[2].result())) for fn, i in c.file_futures.items()
+                         if not i[0] and i[2].done() and i[2].exception() is None and i[1] != len(i[2].result())]
+            if cur != tot or cur < 0 or cur > 18:
+                problems.append(f"current_memory_usage={cur}, entries sum to {tot}, limit 18")
+            if wrong:
+                problems.append(f"entry {wrong[0][0]} is accounted with {wrong[0][1]} bytes but holds {wrong[0][2]}")
+        try:
+            c.executor.shutdown(wait=False)
+        except Exception:
+            pass
+        if problems:
+            return dict(confirmed=True, detail="f1,f0 cached (limit 18 = two entries); update(f1,NEW) with its write held; update(f2, 18 bytes) evicts; "
+                                               "get(f1) overlaps; the write completes: " + '; '.join(problems))
+        return dict(confirmed=False, detail='eviction during a pending write: the latest set is served, accounting consistent')
+    finally:
+        shutil.rmtree(d, ignore_errors=True)
